@@ -13,11 +13,12 @@ from netlib import Pin, Structure, lk, m2j, rand_matrix
 
 
 def pname(i, k):
-    return f"s{i}p{k}"
+    # structures 2j and 2j+1 use the same pin names (as two instances of one block do)
+    return f"s{i // 2}p{k}"
 
 
 def auto_name(i, k):
-    return 1000 + 100 * i + k
+    return 1000 + 100 * (i // 2) + k
 
 
 def spin(x):
@@ -27,8 +28,8 @@ def spin(x):
 def name_id(n: str) -> int:
     if n.startswith("x"):
         return int(n[1:])
-    i, k = n[1:].split("p")
-    return auto_name(int(i), int(k))
+    g, k = n[1:].split("p")
+    return 1000 + 100 * int(g) + int(k)
 
 
 # ---------------------------------------------------------------------------------------------
@@ -118,7 +119,7 @@ def gen_history(rng: random.Random, nstruct=4, length=12, invalid_p=0.0, max_pin
             emit(["raise"])
             for p in tr.free():
                 if p not in tr.mapped.values():
-                    tr.mapped[pname(*p)] = p
+                    tr.mapped["auto%d_%d" % tuple(p)] = p
             emit(["solve"])
         removed = rng.random() < 0.25
         do_cut(0, remove=removed)
@@ -140,7 +141,7 @@ def gen_history(rng: random.Random, nstruct=4, length=12, invalid_p=0.0, max_pin
         emit(["raise"])
         for p in tr.free():
             if p not in tr.mapped.values():
-                tr.mapped[pname(*p)] = p
+                tr.mapped["auto%d_%d" % tuple(p)] = p
         emit(["solve"])
         length = len(ops) + rng.randint(0, 5)
     while len(ops) < length:
@@ -206,7 +207,7 @@ def gen_history(rng: random.Random, nstruct=4, length=12, invalid_p=0.0, max_pin
             emit(["raise"])
             for p in tr.free():
                 if p not in tr.mapped.values():
-                    tr.mapped[pname(*p)] = p
+                    tr.mapped["auto%d_%d" % tuple(p)] = p
         else:
             if tr.present:
                 emit(["solve"])
